@@ -33,7 +33,8 @@ class Recorder:
             if a is arr:
                 return f".arg {k}"
         for n, arr in LeviCivitaTensor._cache.items():
-            if a is arr:
+            # instances hold a copy of the cached array (identity no longer holds): recognise the epsilon tensor by dtype, shape and value
+            if a is arr or (getattr(a, "dtype", None) == arr.dtype and np.shape(a) == arr.shape and np.array_equal(a, arr)):
                 return f".eps {n}"
         for j, r in enumerate(self.results):
             if a is r:
